@@ -9,7 +9,7 @@ DIMS = dict(
     xkind=["class", "func"],
     dup=["none", "same", "other", "ifelse"],
     nested=[False, True],
-    reexp=["none", "pkg_plain", "pkg_renamed", "pkg_star", "sib_plain"],
+    reexp=["none", "pkg_plain", "pkg_renamed", "pkg_star", "sib_plain", "pkg_twice", "pkg_plain_star"],
     origin_all=["absent", "without", "with"],
     local_def=["none", "before", "after"],
     consumer=["none", "old", "new", "both", "modalias"],
@@ -24,16 +24,17 @@ def valid(kw):
     return True
 
 
-def gen(xkind, dup, nested, reexp, origin_all, local_def, consumer, cycle, zope=False, fielddoc=False):
+def gen(xkind, dup, nested, reexp, origin_all, local_def, consumer, cycle, zope=False, fielddoc=False, shadow=False):
     def defx(tag):
         if xkind == "class":
-            s = f"class X:\n    '''X {tag}'''\n    def m{tag}(self):\n        '''m'''\n"
-            if fielddoc:
-                s = f"class X:\n    '''X {tag}\n\n    @ivar fld: documented only here\n    '''\n    def m{tag}(self):\n        '''m'''\n"
+            doc = f"X {tag}" + ("\n\n    @ivar fld: documented only here\n    " if fielddoc else "")
+            s = (f"class X:\n    '''{doc}'''\n    helper{tag} = 1\n    '''helper'''\n"
+                 f"    def m{tag}(self):\n        '''m, see L{{helper{tag}}} and L{{X.helper{tag}}}'''\n")
             if nested:
                 s += "    class N:\n        def n(self): pass\n"
             return s
-        return f"def X():\n    '''X {tag}'''\n"
+        # a function whose default value names a sibling (its linker is created while the module is built)
+        return f"def X(a=sibling):\n    '''X {tag}, see L{{sibling}}'''\n"
 
     def defother(tag):
         if xkind == "class":
@@ -41,6 +42,9 @@ def gen(xkind, dup, nested, reexp, origin_all, local_def, consumer, cycle, zope=
         return f"class X:\n    '''Xc {tag}'''\n    def o(self): pass\n"
 
     impl = ""
+    if shadow:
+        # the defining module first star-imports another X, which its own definition then overrides
+        impl += "from pkg._base import *\n"
     if cycle and consumer != "none":
         impl += "from typing import TYPE_CHECKING\nif TYPE_CHECKING:\n    from pkg import user\n"
     if zope:
@@ -50,6 +54,7 @@ def gen(xkind, dup, nested, reexp, origin_all, local_def, consumer, cycle, zope=
     elif origin_all == "with":
         impl += "__all__ = ['X', 'Y']\n"
     impl += "class Y:\n    '''Y'''\n"
+    impl += "def sibling():\n    '''sibling'''\n"
     deco = "@implementer(IX)\n" if (zope and xkind == "class") else ""
     if dup == "ifelse":
         impl += "if 1:\n" + "".join("    " + ln + "\n" for ln in (deco + defx(1)).splitlines())
@@ -77,6 +82,10 @@ def gen(xkind, dup, nested, reexp, origin_all, local_def, consumer, cycle, zope=
             body += local()
         if reexp == "pkg_plain":
             body += "from pkg._impl import X\n"
+        elif reexp == "pkg_twice":
+            body += "from pkg._impl import X\nfrom pkg._impl import X\n"
+        elif reexp == "pkg_plain_star":
+            body += "from pkg._impl import X\nfrom ._impl import *\n"
         elif reexp == "pkg_renamed":
             body += "from ._impl import X as Z\n"
         else:
@@ -102,13 +111,17 @@ def gen(xkind, dup, nested, reexp, origin_all, local_def, consumer, cycle, zope=
             user += f"from {exp} import {newname} as B\n"
         elif consumer == "both":
             user += f"from pkg._impl import X as B0\nfrom {exp} import {newname} as B\n"
+        elif consumer == "modattr":
+            user += "from pkg import _impl\nB = _impl.X\n"
         else:
             user += "import pkg._impl as mm\nB = mm.X\n"
         if xkind == "class":
-            user += "class U(B):\n    '''U, see L{B} and L{pkg._impl.X}'''\n"
+            user += "class U(B):\n    '''U, see L{B} and L{pkg._impl.X}'''\n    def m1(self):\n        pass\n"
         else:
             user += "def u(a: B):\n    '''u, see L{B}'''\n"
     sources = {"pkg": (init, True), "pkg._impl": (impl, False)}
+    if shadow:
+        sources["pkg._base"] = ("class X:\n    '''base X'''\n    def bm(self): pass\n" if xkind == "class" else "def X():\n    '''base X'''\n", False)
     if sib is not None:
         sources["pkg.api"] = (sib, False)
     if user is not None:
